@@ -489,6 +489,8 @@ class Infer:
             return self.env[e.id]
         if e.id in self.m.classes:
             return ("type", e.id)
+        if e.id in self.m.modfuncs:
+            return ("func", e.id)
         return UNK
 
     def e_Attribute(self, e):
@@ -635,6 +637,17 @@ class Infer:
                 if is_type(t):
                     self.note(e, "ctor", self.ctor_targets(t[1]))
                     return t[1]
+                if isinstance(t, tuple) and t and t[0] == "bound":      # local alias of a method: f = Cls.helper; f(x)
+                    fns = M.lookup(t[1], t[2])
+                    if fns:
+                        self.note(e, "call", fns)
+                        rts = [OVERRIDE_RET.get(fn.qname, self.t.ann_type(fn.node.returns)) for fn in fns]
+                        rts = [x for x in rts if x != UNK]
+                        return rts[0] if rts else UNK
+                if isinstance(t, tuple) and t and t[0] == "func" and t[1] in M.modfuncs:
+                    fn = M.modfuncs[t[1]]
+                    self.note(e, "call", [fn])
+                    return OVERRIDE_RET.get(fn.qname, self.t.ann_type(fn.node.returns))
                 if self.t.classes_of(t):
                     r = self.dunder(e, t, "__call__")
                     a0 = argt[0] if argt else UNK
